@@ -295,7 +295,7 @@ func hasDup(a []int) bool {
 
 func TestCheck(t *testing.T) {
 	r := rep.New("C02", "model_checking",
-		"stream routing on a real TaskMaster: 6 universes of 3 tasks drawn from 10 task shapes (one or two from() nodes, measurement / database / retentionPolicy / where filters, one or two declared dbrps, filtered+unfiltered from() in one task); every history up to the depth bound over the events start/stop/delete Ti (only when applicable) and write(db, rp, measurement, k) (12 write symbols incl. undeclared and default retention policy and points on which a where() lambda fails to evaluate); a |log() sink under every from(); after every event the harness waits for quiescence and compares every sink with a reference router (subsequence of the writes made while the task ran that the task declares and the from() selects, once, in order). states = distinct (universe, running set) pairs reached; non-trivial = histories in which at least one write is delivered")
+		"stream routing on a real TaskMaster: 6 universes of 3 tasks drawn from 10 task shapes (one or two from() nodes, measurement / database / retentionPolicy / where filters, one or two declared dbrps, filtered+unfiltered from() in one task); part (c): every request body of up to 3 lines over {m1,m2} x time stamps {none, 1s, 2s, 3s} (so also decreasing and equal ones) x rp given/defaulted x precision n/s posted to the real services/httpd write handler in front of the TaskMaster, alone and after an earlier request: every from() must see the lines it selects once and in the order written; part (a): every history up to the depth bound over the events start/stop/delete Ti (only when applicable) and write(db, rp, measurement, k) (12 write symbols incl. undeclared and default retention policy and points on which a where() lambda fails to evaluate); a |log() sink under every from(); after every event the harness waits for quiescence and compares every sink with a reference router (subsequence of the writes made while the task ran that the task declares and the from() selects, once, in order). states = distinct (universe, running set) pairs reached; non-trivial = histories in which at least one write is delivered")
 	defer r.Write()
 	r.Assumption("start is only issued for a task that is not running and stop/delete only for a running one (the task store guarantees this)")
 	r.Assumption("events are applied at quiescent states; races between control operations and writes are explored by the scheduler-controlled part (see level_note)")
@@ -316,6 +316,14 @@ func TestCheck(t *testing.T) {
 			r.Add("evaluations", 1)
 			return
 		}
+		var hr struct{ HTTP *HTTPCase }
+		if err := rep.LoadReplay(&hr); err == nil && hr.HTTP != nil {
+			if p := runHTTP(t, *hr.HTTP); p != nil {
+				r.Violation(p.kind, p.msg, hr)
+			}
+			r.Add("evaluations", 1)
+			return
+		}
 		var c Case
 		if err := rep.LoadReplay(&c); err != nil {
 			t.Fatal(err)
@@ -332,6 +340,7 @@ func TestCheck(t *testing.T) {
 	}
 	alpha := alphabet()
 	n := 0
+	httpPart(t, r, &n)
 	for _, u := range universes {
 		var rec func(hist []Event, running [3]bool, writes int)
 		rec = func(hist []Event, running [3]bool, writes int) {
@@ -349,6 +358,7 @@ func TestCheck(t *testing.T) {
 					return
 				}
 				c := Case{Universe: u, Hist: append([]Event(nil), hist...)}
+				rep.Current(c)
 				p, interesting := run(t, c)
 				r.Add("evaluations", 1)
 				r.Add("transitions", int64(len(hist)))
@@ -385,6 +395,7 @@ func TestCheck(t *testing.T) {
 	r.Note("depth", depth)
 
 	// part (b): control operations racing with writes under the controlled scheduler
+	rep.Unwatch()
 	shard, nshards := rep.Shard()
 	bound := 1
 	if rep.Thorough() {
